@@ -58,6 +58,8 @@ def configs(tier):
     for cls in ('BatchSage', 'IntervalSage'):
         add(group='batch', cls=cls, d=2, n=2, q=1, orig=False, _cost=300)
         add(group='batch', cls=cls, d=1, n=2, q=2, orig=False, _cost=100)
+        add(group='batch', cls=cls, d=1, n=2, q=1, orig=False, prior=True, _cost=100)
+        add(group='batch', cls=cls, d=2, n=2, q=1, orig=False, prior=True, _cost=300)
         for exc in ('StopIteration', 'KeyError', 'ZeroDivisionError'):
             add(group='batch', cls=cls, d=1, n=2, q=2, orig=False, exc=exc, _cost=100)
         if cls == 'BatchSage':
@@ -206,10 +208,16 @@ def _batch(env, cfg):
     ex._storage.update = upd
     limp = LoggingImputer(ex._imputer, faults=plan)
     ex._imputer = limp
-    for t in range(n - 1):
+    prior = cfg.get('prior')
+    for t in range(n - 1 - (1 if prior else 0)):
         guarded(env, 'update_storage', ex.update_storage, sym_row(env, names, f"x{t}"), env.real(f"y{t}"))
-    # previous estimates: arbitrary values (any earlier explanation)
-    ex.importance_values = {f: env.real(f"prev_{i}") for i, f in enumerate(names)}
+    if prior:
+        # previous estimates come from a REAL completed run of the same object (faults disarmed): a buffer that the
+        # published values share with the next run's scratch space shows only then
+        guarded(env, 'prior_explain_one', ex.explain_one, sym_row(env, names, 'xp'), env.real('yp'), verbose=False)
+    else:
+        # previous estimates: arbitrary values (any earlier explanation)
+        ex.importance_values = {f: env.real(f"prev_{i}") for i, f in enumerate(names)}
     snap = dict(ex.importance_values)
     x, y = sym_row(env, names, 'x'), env.real('y')
     plan.fired_at = None
@@ -238,6 +246,6 @@ def _batch(env, cfg):
     env.canary('crash_changes_nothing_is_not_vacuous', False)
 
 
-META['explanation'] += ' Further dimensions: exception type (Exception, StopIteration, KeyError, AttributeError, ZeroDivisionError, ValueError), sparse label outputs, two consecutive failing calls.'
+META['explanation'] += ' Further dimensions: exception type (Exception, StopIteration, KeyError, AttributeError, ZeroDivisionError, ValueError), sparse label outputs, two consecutive failing calls; batch explainers also with the previous estimates produced by a real completed run of the same object (prior=True).'
 
 META['explanation'] += ' Long runs: 260 (thorough up to 1030) stored rows, one feature, default imputer; the failing callback is any of the last 24 invocations of the run.'
